@@ -441,15 +441,18 @@ def run(ctx):
     ngen = 0
     families = {}
     if gen is not None:
-        count = 160 if quick else 1500
+        count = 400 if quick else 1800
         try:
             for gid, text in gen.generate(ctx.seed, count):
                 p = os.path.join(gendir, gid + ".nev")
                 open(p, "w").write(text)
                 progs.append((gid, p, "generated"))
                 ngen += 1
-                for fam in gid.split("-")[3:]:
-                    families[fam] = families.get(fam, 0) + 1
+                for tok in gid.split("-")[3:]:
+                    fams = (["f" + d for d in tok[1:] if d.isdigit()] + ["variant:" + d for d in tok[1:] if not d.isdigit()]
+                            if re.match(r"^f\d+[a-z]*$", tok) else [tok])
+                    for fam in fams:
+                        families[fam] = families.get(fam, 0) + 1
         except Exception:  # noqa
             import traceback
             ctx.correspondence_broken("c04-generator", traceback.format_exc()[-1500:])
